@@ -332,12 +332,22 @@ func init() {
 		m.syncPoint(fr)
 		p := a[0].(*Value)
 		L := m.condLocker(p)
+		lp, isMutex := L.V.(*Value)
+		if !isMutex {
+			panic(m.unsupported("sync.Cond with a Locker that is not a *sync.Mutex / *sync.RWMutex"))
+		}
+		mu := m.mutex(lp)
 		st := m.cond(p)
 		w := &condWaiter{}
 		st.waiters = append(st.waiters, w)
-		m.invoke(fr, pos, L, "Unlock")
-		m.block(func() bool { return w.woken }, "Cond.Wait at "+m.posString(pos))
-		m.invoke(fr, pos, L, "Lock")
+		// Wait = unlock, park until signalled, lock again: one operation of the
+		// runtime (no scheduling points of its own inside)
+		if !mu.locked {
+			panic(targetPanic{msg: "sync: unlock of unlocked mutex (Cond.Wait)", pos: m.posString(pos)})
+		}
+		mu.locked = false
+		m.block(func() bool { return w.woken && !mu.locked && mu.readers == 0 }, "Cond.Wait at "+m.posString(pos))
+		mu.locked = true
 		return nil
 	})
 	reg("(*sync.Cond).Signal", func(m *Machine, fr *frame, pos token.Pos, _ *ssa.Function, a []Value) Value {
